@@ -40,6 +40,7 @@ def run(ctx):
     ctx.do(rule_delegation)
     ctx.do(rule_environment_attaches_every_source)
     ctx.do(rule_every_related_id_is_asked)
+    ctx.do(rule_endpoint_filters_name_the_object)
     ctx.do(rule_versions_compared_as_instants)
     # the union is taken over what the MEMBERS answer: each member applies the filters it is handed to every answer (C12) and
     # answers get() with its newest version (C11)
@@ -702,3 +703,26 @@ def rule_versions_compared_as_instants(ctx, R="C18.newest"):
               "('.1234Z' sorts before '.123Z'), so an older version is returned as the newest" % (", ".join(bad[0][1]) if bad else ""),
               file=fi.module.relpath, line=bad[0][0].lineno if bad else fi.node.lineno, function=fi.qualname,
               expected="compare the datetime values the objects hold", found=[short(c, 80) for c, _ in bad])
+
+
+def rule_endpoint_filters_name_the_object(ctx, R="C18.navigation"):
+    """relationships() finds the relationship objects of an object with filters on the two endpoint properties.  Every such
+    filter -- the two `=` filters and the `!=` filter that keeps a relationship from the object to itself from being answered
+    twice -- compares the endpoint with THE OBJECT'S ID: the value argument of every Filter('source_ref' | 'target_ref', op, v)
+    in DataSource.relationships is the id the function derived from its argument (one name for all of them)."""
+    run = ctx.run
+    prog = ctx.prog
+    fi = prog.cls(DS + "::DataSource").methods.get("relationships")
+    if fi is None:
+        raise AnalysisError("anchor missing: DataSource.relationships")
+    fs = [c for c in body_walk(fi.node) if isinstance(c, ast.Call) and call_simple_name(c) == "Filter" and len(c.args) == 3
+          and isinstance(c.args[0], ast.Constant) and c.args[0].value in ("source_ref", "target_ref")]
+    if len(fs) < 3:
+        raise AnalysisError("DataSource.relationships: fewer than 3 endpoint filters (%d)" % len(fs))
+    vals = {norm(c.args[2]) for c in fs}
+    fl = flow_of(fi)
+    from_obj = all(fi.params[1] in fl.prov(c.args[2]).params for c in fs)
+    run.check(len(vals) == 1 and from_obj, R, key(fi.module.relpath, fi.qualname, "endpoint-filters-name-the-object"),
+              "an endpoint filter of relationships() does not compare with the id of the object asked about: relationships are "
+              "missed, or a relationship from the object to itself is answered twice", file=fi.module.relpath, line=fs[0].lineno,
+              function=fi.qualname, expected="one id expression, derived from the argument, in every endpoint filter", found=sorted(vals))
